@@ -94,6 +94,12 @@ func checkReplyModel(r *Result, o replyOpts) []Violation {
 			}
 		}
 		ws := writes[ci]
+		mixed := false // some frames of this connection present another phone / header version
+		for _, f := range r.Plan.Expect.Frames[ci] {
+			if f.AsVer != 0 {
+				mixed = true
+			}
+		}
 		// numbering: all frames the server wrote on this connection
 		for i, w := range ws {
 			if !w.ok {
@@ -104,7 +110,7 @@ func checkReplyModel(r *Result, o replyOpts) []Violation {
 				bad("platform_serial", fmt.Sprintf("conn %d: frame %d written by the server (id=%#04x) carries platform serial %d, want %d", ci, i, w.f.ID, w.f.Serial, uint16(i)), w.ev.Step)
 				return vs
 			}
-			if !bytes.Equal(w.f.Phone, cp.Phone) || w.f.Ver19 != cp.Ver19 {
+			if !mixed && (!bytes.Equal(w.f.Phone, cp.Phone) || w.f.Ver19 != cp.Ver19) {
 				bad("addressing", fmt.Sprintf("conn %d: frame %d (id=%#04x) addressed to phone %x ver19=%v, terminal is %x ver19=%v", ci, i, w.f.ID, w.f.Phone, w.f.Ver19, []byte(cp.Phone), cp.Ver19), w.ev.Step)
 				return vs
 			}
@@ -126,7 +132,14 @@ func checkReplyModel(r *Result, o replyOpts) []Violation {
 		}
 		ri := 0
 		for _, q := range reqs {
-			kind := expectedReply(q.ID, cp.Ver19, q.Body)
+			// the sender as the request's own raw frame names it (the connection's identity unless the plan mixes)
+			qPhone, qV19 := []byte(cp.Phone), cp.Ver19
+			if mixed {
+				if qf, err := ref.Decode(q.Raw); err == nil {
+					qPhone, qV19 = qf.Phone, qf.Ver19
+				}
+			}
+			kind := expectedReply(q.ID, qV19, q.Body)
 			if kind == replyNone {
 				continue
 			}
@@ -139,6 +152,10 @@ func checkReplyModel(r *Result, o replyOpts) []Violation {
 			}
 			w := reps[ri]
 			ri++
+			if mixed && (!bytes.Equal(w.f.Phone, qPhone) || w.f.Ver19 != qV19) {
+				bad("addressing", fmt.Sprintf("conn %d: reply to id=%#04x serial=%d (sender %x ver19=%v) is addressed to phone %x ver19=%v", ci, q.ID, q.Ser, qPhone, qV19, w.f.Phone, w.f.Ver19), w.ev.Step)
+				return vs
+			}
 			if w.ev.Step <= q.Step {
 				bad("reply_before_read_callback", fmt.Sprintf("conn %d: reply to id=%#04x serial=%d written at step %d, read callback at step %d", ci, q.ID, q.Ser, w.ev.Step, q.Step), w.ev.Step)
 				return vs
@@ -169,7 +186,7 @@ func checkReplyModel(r *Result, o replyOpts) []Violation {
 					code, known := issued[q.Phone]
 					if !known {
 						inspect = false
-					} else if !bytes.Equal(code, authCodeOf(cp.Ver19, q.Body)) {
+					} else if !bytes.Equal(code, authCodeOf(qV19, q.Body)) {
 						want = 1
 					}
 				}
@@ -399,8 +416,14 @@ func genC06(seed uint64, tier string, idx int) *Plan {
 		v19 := g.r.chance(50)
 		ci := g.addConn("service", v19, g.distinctPhone(v19, used))
 		n := 1 + g.r.intn(maxMsgs)
+		mixed := g.r.chance(12)
+		if mixed {
+			g.p.Faults = append(g.p.Faults, "input.mixed_identity")
+		}
 		var frames []SentFrame
+		nativeHandled := false
 		if g.r.chance(60) {
+			nativeHandled = true
 			frames = append(frames, g.mkFrame(ci, 0x0100, g.randSerial(), g.wellFormedBody(0x0100, v19, p.Conns[ci].Phone)))
 		}
 		for len(frames) < n {
@@ -420,7 +443,23 @@ func genC06(seed uint64, tier string, idx int) *Plan {
 				continue
 			}
 			id := g.randID()
-			frames = append(frames, g.mkFrame(ci, id, g.randSerial(), g.wellFormedBody(id, v19, p.Conns[ci].Phone)))
+			if mixed && nativeHandled && g.r.chance(25) {
+				// a frame under another identity on the same connection (a gateway multiplexing terminals, a terminal
+				// that changes its header version): answered like any other, addressed to the sender it names
+				fv, fp := g.otherIdentity(ci, used)
+				frames = append(frames, g.mkFrameAs(id, g.randSerial(), g.wellFormedBody(id, fv, fp), fv, fp))
+				continue
+			}
+			body := g.wellFormedBody(id, v19, p.Conns[ci].Phone)
+			if id == 0x0102 && v19 && g.r.chance(20) {
+				// the case the property names: a 2019-layout 0x0102 too short for its fixed fields is logged and not
+				// answered - and must leave no trace in what follows (numbering, order)
+				body = body[:g.r.intn(36)]
+			}
+			frames = append(frames, g.mkFrame(ci, id, g.randSerial(), body))
+			if isHandled(id) {
+				nativeHandled = true // the session now exists under the connection's own number
+			}
 		}
 		a := g.connActor(ci, frames, g.segStyle(), 5)
 		if g.r.chance(15) {
